@@ -3,7 +3,7 @@
    (|a-b| <= atol + rtol(|a|+|b|)).  `failing` returns 2*id for a disagreement and 2*id+1 for a case the model
    flags as ill-conditioned (a numerator that is a cancelling sum next to the clipping threshold): skipped, counted. *)
 From Coq Require Import List Arith ZArith QArith Qabs Qround Bool.
-From TLV Require Import Base.Shape Base.PyList Base.Tensor Base.Ops Model.Nonneg Model.NonnegSign Corr.Common.
+From TLV Require Import Base.Shape Base.PyList Base.Tensor Base.Ops Model.Nonneg Model.NonnegSign Model.NonnegOptions Corr.Common.
 Import ListNotations.
 
 Definition qmat := list (list Q).
@@ -132,6 +132,26 @@ Definition p2iter_fx (T : tensor Q) (w : list Q) (Fs : list qmat) (nip : nat) (n
              nm (fun _ _ => false) 1 (map q2fx w, map m2fx Fs) in
   (map fx2q (fst r), map m2q (snd r)).
 
+(* the entry points as functions of their RAW options (Model/NonnegOptions.v): fixed_modes / nn_modes / sparsity_coefficients are parsed by the model *)
+Definition sp2fx (o : @sp_opt Q) : @sp_opt Z :=
+  match o with SpNone => SpNone | SpScalar c => SpScalar (q2fx c) | SpList l => SpList (map o2fx l) end.
+Definition halscp_entry_fx (T : tensor Q) (w : list Q) (Fs : list qmat) (fixed : option (list nat)) (nn : nn_opt) (sp : @sp_opt Q) (nm : bool)
+           (n : nat) (tol : Q) : list Q * list qmat :=
+  let T' := t2fx T in let sp' := sp2fx sp in let N := length Fs in
+  let sps' := parse_sps N sp' (parse_fixed fixed) in
+  let r := non_negative_parafac_hals_entry Fxops fxnrm2 (fun _ => cp_hals_utm Fxops T') (fun _ => cp_hals_utu Fxops) (fun _ M => M)
+             (fun _ => cp_hals_inner Fxops T' sps' (q2fx tol)) (fun _ _ => false) N fixed nn sp' nm n (map q2fx w) (map m2fx Fs) in
+  (map fx2q (fst r), map m2q (snd r)).
+Definition tkhals_entry_fx (T core : tensor Q) (Fs : list qmat) (fixed : option (list nat)) (sp : @sp_opt Q) (csp : Q) (nm : bool)
+           (feps lr : Q) (betas : list Q) (n : nat) (tol : Q) : list Q * list qmat :=
+  let T' := t2fx T in let sp' := sp2fx sp in let N := length Fs in
+  let sps' := parse_sps N sp' (unfix_last N (parse_fixed fixed)) in
+  let r := non_negative_tucker_hals_entry Fxops fxnrm2 Fista (q2fx feps) (fun _ => tk_hals_utm Fxops T') (fun _ => tk_hals_utu Fxops)
+             (fun _ => tk_hals_inner Fxops T' sps' (q2fx tol)) (fun _ _ => q2fx lr) (q2fx csp) (fun _ => tk_core_lin Fxops)
+             (fun _ => tk_mu_numc Fxops T') (fun _ _ => map q2fx betas) (fun _ _ _ x => x) (fun _ _ => 0%nat) (fun _ _ => false)
+             N fixed sp' nm n (t2fx core) (map m2fx Fs) in
+  (map fx2q (data (fst r)), map m2q (snd r)).
+
 Definition pair_close (a b : list Q * list qmat) : bool :=
   q_list_close (1 # 100000000000000000000) (1 # 1000000000000000) (fst a) (fst b) &&
   qmats_close (1 # 100000000000000000000) (1 # 1000000000000000) (snd a) (snd b).
@@ -175,6 +195,11 @@ Inductive op :=
 | OP2Iter (T : tensor Q) (w : list Q) (Fs : list qmat) (nip : nat) (nm : bool) (tol : Q)
 (* _BroThesisLineSearch.line_step extrapolation + clipping *)
 | OLine (nn : list nat) (jump : Q) (last cur : list qmat)
+(* the same three entry points called with RAW options (fixed_modes incl. None and the last mode, nn_modes 'all' / None / list, sparsity None / scalar / list):
+   the option parsing of Model/NonnegOptions.v is part of the executed model *)
+| OMuCpE (eps : Q) (T : tensor Q) (w : list Q) (Fs : list qmat) (nm : bool) (fixed : option (list nat)) (n : nat)
+| OHalsCpE (T : tensor Q) (w : list Q) (Fs : list qmat) (fixed : option (list nat)) (nn : nn_opt) (sp : @sp_opt Q) (nm : bool) (n : nat) (tol : Q)
+| OTkHalsE (T core : tensor Q) (Fs : list qmat) (fixed : option (list nat)) (sp : @sp_opt Q) (csp : Q) (nm : bool) (feps lr : Q) (betas : list Q) (n : nat) (tol : Q)
 (* corr:C10-static -- the body of an entry point, regenerated from the current Python source by the ast translator (harness/props/C10_sign.py):
    the sign analysis of Model/NonnegSign.v must establish that the returned decomposition is entrywise >= 0 (verdict 0) *)
 | OSign (prog : list stmt) (a0 : aenv) (ret : sx).
@@ -197,15 +222,16 @@ Definition mu_cond (eps : Q) (T : tensor Q) (nm : bool) (modes : list nat) (n : 
                   (b && ok, cp_mu_mode Qops qnrm2 eps (cp_mu_num Qops T) (cp_mu_den Qops) nm (last modes 0%nat) st mode))
                modes bs) (true, st).
 
-Definition run (o : op) : out :=
-  match o with
-  | OMuCp eps T w Fs nm modes n =>
+Definition run_mucp (eps : Q) (T : tensor Q) (w : list Q) (Fs : list qmat) (nm : bool) (modes : list nat) (n : nat) : out :=
       let init := initialize_cp_user_norm Qops qnrm2 w Fs nm in
       let '(ok, _) := mu_cond eps T nm modes n init in
       if ok then
         let r := non_negative_parafac Qops qnrm2 eps (fun _ => cp_mu_num Qops T) (fun _ => cp_mu_den Qops) (fun _ _ => false) nm modes n init in
         OutMats (fst r) (snd r)
-      else OutSkip
+      else OutSkip.
+Definition run (o : op) : out :=
+  match o with
+  | OMuCp eps T w Fs nm modes n => run_mucp eps T w Fs nm modes n
   | OHals eps sp rg UtM UtU V n => OutMats [] [hals_nnls Qops eps sp rg UtM UtU V n]
   | OFista eps lr sp rg nonneg UtU UtM x betas => OutMats (fista Qops eps lr sp rg nonneg (matvec Qops UtU) UtM x betas) []
   | ONormCp w Fs => let r := cp_normalize Qops qnrm2 (w, Fs) in OutMats (fst r) (snd r)
@@ -243,6 +269,17 @@ Definition run (o : op) : out :=
       let b := p2iter_fx T w Fs nip nm (tol * (1000001 # 1000000)) in
       if pair_close a b then OutMats (fst a) (snd a) else OutSkip
   | OLine nn jump last cur => OutMats [] (line_step Qops nn jump last cur)
+  | OMuCpE eps T w Fs nm fixed n =>
+      (* non_negative_parafac_entry unfolded (the conditioning test needs the mode list): same parsing functions *)
+      run_mucp eps T w Fs nm (modes_of (length Fs) (unfix_last (length Fs) (parse_fixed fixed))) n
+  | OHalsCpE T w Fs fixed nn sp nm n tol =>
+      let a := halscp_entry_fx T w Fs fixed nn sp nm n (tol * (999999 # 1000000)) in
+      let b := halscp_entry_fx T w Fs fixed nn sp nm n (tol * (1000001 # 1000000)) in
+      if pair_close a b then OutMats (fst a) (snd a) else OutSkip
+  | OTkHalsE T core Fs fixed sp csp nm feps lr betas n tol =>
+      let a := tkhals_entry_fx T core Fs fixed sp csp nm feps lr betas n (tol * (999999 # 1000000)) in
+      let b := tkhals_entry_fx T core Fs fixed sp csp nm feps lr betas n (tol * (1000001 # 1000000)) in
+      if pair_close a b then OutMats (fst a) (snd a) else OutSkip
   | OSign prog a0 ret => OutMats [inject_Z (Z.of_nat (sign_verdict prog a0 ret))] []
   end.
 
